@@ -9,6 +9,7 @@ enum Op17
   LogB,
   RemoveA,        // non-blocking
   RemoveABlocking,
+  RemoveABlockingDeep, // the same call from a deeper stack frame (another address for the caller's completion flag)
   RecreateA,      // create_or_get_logger("A", {S3}) - only after a blocking removal, as documented
   RemoveB,
   GetA,
@@ -16,6 +17,18 @@ enum Op17
   CreateSinkS1Again,
   CreateGetLoggerBAgain
 };
+
+// calls f from a frame n levels deeper (the frames cannot be merged or turned into a loop)
+static void deep_call(int n, std::function<void()> const& f)
+{
+  volatile char pad[200];
+  pad[0] = static_cast<char>(n);
+  if (n == 0)
+    f();
+  else
+    deep_call(n - 1, f);
+  pad[1] = pad[0];
+}
 
 static std::vector<std::vector<Op17>> shape(long s)
 {
@@ -27,6 +40,8 @@ static std::vector<std::vector<Op17>> shape(long s)
   case 3: return {{LogA, RemoveABlocking, RecreateA, LogA, RemoveABlocking, RecreateA, LogA}, {LogB}};
   case 4: return {{LogA, GetSinkS1, RemoveA}, {CreateSinkS1Again, LogB, CreateGetLoggerBAgain, LogB}};
   case 5: return {{LogA, LogA, RemoveABlocking}, {LogB, RemoveB}};
+  case 6: return {{LogA, RemoveABlocking, RecreateA, LogA, RemoveABlockingDeep, RecreateA, LogA, RemoveABlocking}, {LogB}};
+  case 7: return {{LogA, RemoveA}, {LogB, RemoveB}}; // with dtor_yield: the backend is preempted while it erases loggers
   default: return {{LogA}, {LogB}};
   }
 }
@@ -86,10 +101,14 @@ static Scenario make_c17(std::map<std::string, long> const& cfg)
             F::remove_logger(st->a);
             w.events.push_back("removeA gen " + std::to_string(st->a_generation));
             break;
+          case RemoveABlockingDeep:
           case RemoveABlocking:
           {
             size_t const before = F::get_number_of_loggers();
-            F::remove_logger_blocking(st->a);
+            if (op == RemoveABlockingDeep)
+              deep_call(6, [&] { F::remove_logger_blocking(st->a); });
+            else
+              F::remove_logger_blocking(st->a);
             bool const gone = F::get_logger("A") == nullptr;
             size_t const after = F::get_number_of_loggers();
             w.events.push_back("removeA-blocking gen " + std::to_string(st->a_generation) + " returned");
@@ -229,6 +248,7 @@ static Scenario make_c17(std::map<std::string, long> const& cfg)
     }
     for (auto const& n : w.notes)
       if (n.find("Quill INFO") == std::string::npos) w.fail("unexpected-backend-error", n);
+    if (w.vars.count("stall")) w.fail("operation-never-returns", "a frontend operation (remove_logger_blocking / log call) never returns although the backend keeps polling");
   };
   return sc;
 }
